@@ -200,6 +200,21 @@ def run(ctx):
                 # phase of the constant: relative phase between the branches must be that of exp(-iHt) itself (not only up to a phase)
                 E = scipy.linalg.expm(-1j * t * H); trr = np.trace(E.conj().T @ (B1 / k0)); ok1 = abs(trr / abs(trr) - 1) < 0.05
             num('controlled', ok0 and ok1, 'controlled circuit is not identity (control 0) / the same evolution including the constant phase (control 1) up to one global phase', rp, key=repr(rp) + repr(H[0, 0]))
+            # final mode assignment of controlled circuits: with omit_final_swaps the control-1 branch differs from the full circuit by
+            # nothing or by the documented full reversal of the modes (never after an even number of steps); the control-0 branch stays the identity
+            for steps2 in (1, 2, 3):
+                try:
+                    Uf = cirq.Circuit(simulate_trotter(qs, ham, t, n_steps=steps2, order=order, algorithm=alg, control_qubit=ctrl)).unitary(qubit_order=[ctrl] + list(qs))
+                    Uo = cirq.Circuit(simulate_trotter(qs, ham, t, n_steps=steps2, order=order, algorithm=alg, control_qubit=ctrl, omit_final_swaps=True)).unitary(qubit_order=[ctrl] + list(qs))
+                except ValueError: break
+                F1, O1, O0 = Uf[d:, d:], Uo[d:, d:], Uo[:d, :d]
+                Rf = cirq.Circuit(of.swap_network(qs, fermionic=True)).unitary(qubit_order=qs) if n > 1 else np.eye(2)
+                Rq2 = cirq.Circuit(of.swap_network(qs)).unitary(qubit_order=qs) if n > 1 else np.eye(2)
+                same = np.allclose(O1, F1, atol=1e-7)
+                okf = same or np.allclose(Rf @ O1, F1, atol=1e-7) or np.allclose(Rq2 @ O1, F1, atol=1e-7)
+                if steps2 % 2 == 0: okf = same
+                id0 = np.allclose(O0, O0[0, 0] * np.eye(d), atol=1e-7) or np.allclose(Rf @ O0, (Rf @ O0)[0, 0] * np.eye(d), atol=1e-7) or np.allclose(Rq2 @ O0, (Rq2 @ O0)[0, 0] * np.eye(d), atol=1e-7)
+                num('final_assignment_controlled', okf and id0, 'controlled circuit with omit_final_swaps does not differ from the full circuit by exactly the documented mode reversal', dict(rp, n_steps=steps2), key=(repr(rp), steps2, repr(H[0, 0])))
     ctx.sample({'part': 'convergence_order', 'note': 'spectral-norm error of the cirq unitary against scipy expm of the tied JW matrix for n_steps = 1, 2, 4'})
     res = coq_eval_bools(ctx, 'c15', IMPORTS, items, chunk=10)
     judge(ctx, res, meta, 'C15')
